@@ -135,8 +135,10 @@ def _prune(keep):
                         key=lambda d: os.path.getmtime(os.path.join(BUILD, d)))
     except OSError:
         return
+    now = time.time()
     for d in stages[:-4]:
-        if d != os.path.basename(keep):
+        # never under a check that may still be running from it (every check touches its stage when it starts)
+        if d != os.path.basename(keep) and now - os.path.getmtime(os.path.join(BUILD, d)) > 2 * 3600:
             shutil.rmtree(os.path.join(BUILD, d), ignore_errors=True)
     try:
         caches = sorted(os.listdir(CACHE), key=lambda d: os.path.getmtime(os.path.join(CACHE, d)))
